@@ -405,7 +405,7 @@ def gen_sounds(rng) -> list:
 
     def plain(n: int = 10) -> str:
         # RULE: names and wave paths are written unescaped, so no quote, backslash or line break.
-        return rand_str(rng, n, escapes=0.0, struct_chars=0.1, forbid='"\\\r\n{}', empty=0.0) or 'x'
+        return rand_str(rng, n, escapes=0.0, struct_chars=0.1, forbid='"\\\r\n', empty=0.0) or 'x'
 
     def interval(enums: list, lo: float, hi: float):
         def one():
